@@ -29,6 +29,11 @@ def run(prop, tier, seed, replay=None):
     V.assumptions = [
         "mpz_probab_prime_p (n >= 2^16), Pollard rho and Lenstra ECM are oracles of the model: the theorems assume the stated contract "
         "(answers the primality question / returns a prime factor); every answer of the real code is certified per call by the verified checkers",
+        "Lenstra's ECM arithmetic (Add_Curve, Mul_Curve, one_Mul_Curve) is an oracle too: executed and certified per call (divisor / failure value), never modelled; "
+        "Miller / Lehmann draw their base from GMP's global random state: certified one-sidedly (a prime must pass), the base is not observable; "
+        "Erathostene (sieve variant) and the text of write() are certified, not modelled (write's loop is compared with the model of set)",
+        "Pollard() called directly on n with a prime factor below 100 can recurse without end (n = 4, 25: the rho iteration fails for every start): "
+        "factor() never passes such n, the harness calls Pollard only on factor()'s domain",
         "the reference test above 2^20 is Miller-Rabin with the bases 2..37 (deterministic below 3.3e24; that fact is not proved in Lean); "
         "below 2^20 it is trial division, proved equivalent to Nat.Prime",
         "mpz_get_si / mpz_gcd / divmod contracts as in Prim/Gmp.lean; mpz_root by the explicit contract RootOK (floor of the k-th root; the driver's bisection "
@@ -48,6 +53,20 @@ def run(prop, tier, seed, replay=None):
         lines = [l.split(" = ")[0] for l in json.load(open(replay)).get("lines", []) if l]
     res = flow.correspond(bins, "primes", lines=lines, harness_args=[] if lines is not None else [tier, str(seed)],
                           timeout=7200 if tier == "thorough" else 1500)
+    # second build of the same harness with -DGIVARO_LENSTRA: `factor` (hence `set`) routes through Lenstra's ECM instead of Pollard;
+    # it emits only the factor-driven lines, under their own keys (factorL, setL)
+    try:
+        binsL = flow.build_harnesses("h_primes", configs=("S",), extra=["-DGIVARO_LENSTRA"])
+        linesL = None if lines is None else [l for l in lines if l.split(" ")[0] in ("factorL", "setL")]
+        if linesL is None or linesL:
+            resL = flow.correspond(binsL, "primes", lines=linesL, harness_args=[] if linesL is not None else [tier, str(seed)],
+                                   timeout=7200 if tier == "thorough" else 1500)
+            res["results"] += [(v, l, "S+LENSTRA") for v, l, _ in resL["results"]]
+            res["crashes"] += resL["crashes"]
+        if lines is not None:      # a replay file of the plain build must not re-run the Lenstra-build lines there
+            res["results"] = [(v, l, c) for v, l, c in res["results"] if c == "S+LENSTRA" or l.split(" ")[0] not in ("factorL", "setL")]
+    except common.BuildError as e:
+        V.note("the -DGIVARO_LENSTRA build of the harness does not compile: %s" % str(e)[-400:])
     counts = flow.decide(V, res, known=report.findings_for(prop), key_of=key_of)
     keys = {}
     for _, l, _ in res["results"]:
